@@ -5,6 +5,10 @@ DESIGN.md table."""
 import json, shutil, sys
 from pathlib import Path
 V = Path("/verif")
+INCOMING = sys.argv[1] if len(sys.argv) > 1 else "_incoming"
+OFFSET = int(sys.argv[2]) if len(sys.argv) > 2 else 0
+VERIFY_FILES = sys.argv[3].split(",") if len(sys.argv) > 3 else ["verify_seeds.jsonl", "verify_rebased.jsonl"]
+CATCH_FILES = sys.argv[4].split(",") if len(sys.argv) > 4 else ["catch.jsonl", "catch_extra.jsonl"]
 def load(path):
     out = {}
     p = V / ".work" / path
@@ -14,10 +18,13 @@ def load(path):
             except Exception: continue
             out[(d["id"], d["n"])] = d
     return out
-verify = load("verify_seeds.jsonl"); verify.update(load("verify_rebased.jsonl"))
-catch = load("catch.jsonl"); catch.update(load("catch_extra.jsonl"))
+verify, catch = {}, {}
+for name in VERIFY_FILES:
+    verify.update(load(name))
+for name in CATCH_FILES:
+    catch.update(load(name))
 rows = []
-for inc in sorted((V / "seeded" / "_incoming").iterdir()):
+for inc in sorted((V / "seeded" / INCOMING).iterdir()):
     for n in (1, 2):
         patch = inc / f"change{n}.diff"
         if not patch.is_file(): continue
@@ -25,7 +32,7 @@ for inc in sorted((V / "seeded" / "_incoming").iterdir()):
         v, c = verify.get(key), catch.get(key)
         if not v or not v.get("applies") or "205 passed" not in v.get("suite", "") or v["demo_with_change_exit"] in (0, -1) or v["demo_without_change_exit"] != 0:
             print("NOT CONFIRMED, skipped:", key, v, file=sys.stderr); continue
-        dest = V / "seeded" / f"{inc.name}-{n}"
+        dest = V / "seeded" / f"{inc.name}-{n + OFFSET}"
         dest.mkdir(exist_ok=True)
         shutil.copy(patch, dest / "patch.diff")
         shutil.copy(inc / f"demo{n}.py", dest / "demo.py")
@@ -45,14 +52,14 @@ for inc in sorted((V / "seeded" / "_incoming").iterdir()):
                 "demo_exit_without_change": v["demo_without_change_exit"],
             },
             "detection": {
-                "command": f"git -C /repo apply seeded/{inc.name}-{n}/patch.diff && ./check {inc.name} --tier quick; git -C /repo checkout -- .",
+                "command": f"git -C /repo apply seeded/{inc.name}-{n + OFFSET}/patch.diff && ./check {inc.name} --tier quick; git -C /repo checkout -- .",
                 "check_exit": c.get("exit") if c else None,
                 "violation_keys": c.get("keys", "").split() if c else None,
             },
             "agent_notes": agent.get("ran"),
         }
         (dest / "meta.json").write_text(json.dumps(meta, indent=1) + "\n")
-        rows.append((inc.name, n, (agent.get("summary") or "")[:150].replace("\n", " ").replace("|", "/"),
+        rows.append((inc.name, n + OFFSET, (agent.get("summary") or "")[:150].replace("\n", " ").replace("|", "/"),
                      c.get("exit") if c else "?", ", ".join(k.replace("key=", "") for k in (c.get("keys", "").split()[:3] if c else []))))
 print("| seed | change (summary) | own check, quick tier | violation keys |")
 print("|---|---|---|---|")
